@@ -150,6 +150,7 @@ def _aggr(mean, var, n):
     return A.Aggregates(count_=n, mean_={"x": mean}, var_={"x": var}, cov_={})
 
 
+@H.under_contrary_config
 def check_case(case):
     import tea_tasting as tt
     fails = []
@@ -219,6 +220,7 @@ def rand_case(rng):
 
 
 def oracle(ctx, deep=False):
+    reuse_oracle(ctx)
     for i in range(ctx.n(60, 1500) * (3 if deep else 1)):
         case = rand_case(ctx.rng)
         fails = check_case(case)
@@ -230,7 +232,22 @@ def oracle(ctx, deep=False):
             break
 
 
+def reuse_oracle(ctx):
+    for parameter in ['effect_size', 'rel_effect_size', 'n_obs']:
+        for _ in range(ctx.n(3, 40)):
+            seed = ctx.rng.randint(0, 10**6)
+            fails = meanx.reuse_history(seed, parameter)
+            ctx.evaluations += 1
+            ctx.count("oracle:reused-object-history")
+            for f in fails:
+                ctx.violations.append({"what": "result depends on earlier calls on the same metric object", "detail": f,
+                                       "input": {"reuse_history": True, "seed": seed, "parameter": parameter}})
+
+
 def replay(ctx, rp):
+    if rp["input"].get("reuse_history"):
+        fails = meanx.reuse_history(rp["input"]["seed"], rp["input"]["parameter"])
+        return {"fails": bool(fails), "failures": fails}
     fails = check_case(rp["input"])
     return {"fails": bool(fails), "failures": fails}
 
